@@ -88,6 +88,43 @@ class Sessions(Stage):
         return res
 
 
+class CrossTalk(Stage):
+    """breakpoint commands must never influence the live view: a short prelude of filter / breakpoint commands made of
+    simple atoms (so that the filter's meaning is known exactly), then the whole history streams in"""
+    name = 'cross-talk'
+
+    def examples(self, tier):
+        return 200 if tier == 'quick' else 14 * 1500
+
+    def gen(self, d, tier):
+        specs = histgen.history(d, nconn=d.int(1, 2), nmsg=d.int(6, 30), profile=PROFILE, tagged=True)
+        V = rm.vocab(specs)
+        simple = ['wl_display', 'wl_registry', 'wl_callback', '.bind', '.sync', '.delete_id', '.new', '.destroyed', '2', '3'] + [
+            str(t) for t in V.get('type', [])[:6]] + ['.' + str(n) for n in V.get('name', [])[:8]]
+        items = []
+        for _ in range(d.int(2, 7)):
+            alts = [d.choice(simple) for _ in range(d.int(0 if items else 1, 2))]
+            excl = [d.choice(simple) for _ in range(d.int(0 if alts else 1, 1))]
+            t = (', '.join(alts) + (' ! ' + ', '.join(excl) if excl else '')).strip()
+            if d.chance(0.5):
+                items.append(['cmd', 'filter ' + t, None, dict(alts=alts, excl=excl)])
+            else:
+                items.append(['cmd', 'breakpoint ' + t])
+        for m in specs:
+            items.append(['line', wire.render(m, 'new'), m['conn']])
+        return dict(dialect='new', specs=specs, initial_filter=None, items=items)
+
+    def execute(self, case):
+        res = Result()
+        res.evals = 0
+        w = evaluate(case, res)
+        c = w.changes
+        res.nontrivial = c['shown'] >= 1 and c['hidden'] >= 1 and any(i[0] == 'cmd' and i[1].startswith('breakpoint') for i in case['items'])
+        res.label('cross-talk-prelude')
+        res.sample = dict(items=[i[1] if i[0] == 'line' else '$ ' + i[1] for i in case['items'][:10]])
+        return res
+
+
 class SinkSessions(Stage):
     """the same property on the connection-id interface (what GDB mode drives): connections are opened, closed and their
     ids re-used while messages stream in and the selection / filter change"""
@@ -220,7 +257,7 @@ class C06(Prop):
             'distinct by SHA-1 of the case.')
     assumptions = ['matcher meaning is C05\'s business: expectations use an independently parsed copy of the same matcher text',
                    'filters are replaced via `filter !` then `filter <m>` (accumulation is C12\'s business)']
-    stages = [Sessions(), SinkSessions()]
+    stages = [Sessions(), CrossTalk(), SinkSessions()]
 
 
 PROP = C06()
